@@ -1,6 +1,416 @@
-(* C05 — placeholder while the proofs are being written *)
-From PV Require Import Base.MachineInt Model.C05Cnv Model.C05Core.
+(* C05 — ciphertext multiplication (tensor, relinearise, plain, constant) scales right; HAL bivariate convolution.
+   Pinned statements, `exact` proofs, Print Assumptions, and Examples showing that hypotheses are satisfiable. *)
+From PV Require Import Base.MachineInt Model.Znx Model.Limbs Model.LimbsBig Model.Flat Model.Ring Model.DftAbs
+  Model.C05Cnv Model.C05Spec Model.C05Core.
+From PV Require Import Proofs.C07Dft Proofs.C07Ring Proofs.C05Cnv Proofs.C05Core.
 Open Scope Z_scope.
-Theorem C05_placeholder : offset_split 7 3 = (0, -4).
+
+(* ====================================================================================================== *)
+(* Part 1 — HAL convolution over exact products                                                            *)
+(* ====================================================================================================== *)
+
+(* what cnv_prepare_left / right / self do: the mask lands on the last ACTIVE limb min(psz, a.size) - 1 *)
+Theorem C05_cnv_prepare_spec : forall n psz mask a j, (j < psz)%nat ->
+  lim (cnv_prepare n psz mask a) j =
+  let min_size := Nat.min psz (length a) in
+  if Nat.ltb (S j) min_size then lim a j
+  else if Nat.ltb j min_size then mask_limb mask (lim a j) else pzero n.
+Proof. exact cnv_prepare_spec. Qed.
+Print Assumptions C05_cnv_prepare_spec.
+
+(* msb_mask_bottom_limb(base2k, k): keeps the top k mod base2k bits of the limb (floor to a multiple of 2^(base2k - k mod base2k)) *)
+Theorem C05_msb_mask_spec : forall b k x, 1 <= b <= 63 -> 0 <= k ->
+  Z.land x (msb_mask b k) = if k mod b =? 0 then x else x - x mod 2 ^ (b - k mod b).
+Proof. exact msb_mask_spec. Qed.
+Print Assumptions C05_msb_mask_spec.
+Example C05_msb_mask_ex : msb_mask 12 29 = - 2 ^ 7 /\ Z.land (-1000) (msb_mask 12 29) = -1024 /\ msb_mask 12 24 = -1.
+Proof. repeat split; reflexivity. Qed.
+
+(* cnv_apply_dft(cnv_offset) for all sizes, all offsets (also past the end), both backend families, any masks:
+   output limb k is the coefficient of Y^(k + cnv_offset) of (sum_i a_i Y^i)(sum_j b_j Y^j), an explicit sum over index pairs,
+   truncated to res_size limbs *)
+Theorem C05_cnv_is_truncated_bivariate_product :
+  forall (fft : bool) (n rsz cnv_offset pasz pbsz : nat) (mask_a mask_b : Z) (a b : plimbs) (k : nat),
+  wfl n a -> wfl n b -> (1 <= pasz)%nat -> (1 <= pbsz)%nat -> (k < rsz)%nat ->
+  let A := cnv_prepare n pasz mask_a a in let B := cnv_prepare n pbsz mask_b b in
+  lim (cnv_apply fft n rsz cnv_offset A B) k =
+  psumf n (fun i => psumf n (fun j =>
+     if Nat.eqb (i + j) (k + cnv_offset) then pmul (lim A i) (lim B j) else pzero n) pbsz) pasz.
+Proof.
+  intros fft n rsz off pasz pbsz ma mb a b k wa wb Ha Hb Hk A B.
+  pose proof (cnv_apply_spec fft n rsz off A B k) as H. unfold bivariate_coeff in H.
+  subst A B. rewrite !cnv_prepare_length in H. apply H; try assumption; try (rewrite cnv_prepare_length; assumption);
+    apply cnv_prepare_wfl; assumption.
+Qed.
+Print Assumptions C05_cnv_is_truncated_bivariate_product.
+
+(* the same for arbitrary (already prepared) operands *)
+Theorem C05_cnv_apply_spec : forall fft n rsz off a b k, wfl n a -> wfl n b -> (1 <= length a)%nat -> (1 <= length b)%nat ->
+  (k < rsz)%nat -> lim (cnv_apply fft n rsz off a b) k = bivariate_coeff n a b (k + off).
+Proof. exact cnv_apply_spec. Qed.
+Print Assumptions C05_cnv_apply_spec.
+Example C05_cnv_apply_ex :
+  wfl 2 [[1; 2]; [3; 4]] /\ wfl 2 [[5; 6]] /\
+  cnv_apply true 2 3 1 [[1; 2]; [3; 4]] [[5; 6]] = [[-9; 38]; [0; 0]; [0; 0]] /\
+  cnv_apply false 2 3 0 [[1; 2]; [3; 4]] [[5; 6]] = [[-7; 16]; [-9; 38]; [0; 0]] /\
+  bivariate_coeff 2 [[1; 2]; [3; 4]] [[5; 6]] 1 = [-9; 38].
+Proof.
+  repeat split; try reflexivity; intros [|[|j]] H; cbn in *; try reflexivity; lia.
+Qed.
+
+Theorem C05_cnv_offset_past_end : forall fft n rsz off a b k, wfl n a -> wfl n b -> (1 <= length a)%nat -> (1 <= length b)%nat ->
+  (k < rsz)%nat -> (length a + length b - 1 <= k + off)%nat -> lim (cnv_apply fft n rsz off a b) k = pzero n.
+Proof. exact cnv_apply_past_end. Qed.
+Print Assumptions C05_cnv_offset_past_end.
+
+(* FFT64 (min_size = min(res, a+b-1)) and NTT120 (min_size = min(res, a+b-offset)) compute the same limbs *)
+Theorem C05_cnv_family_independent : forall n rsz off a b, wfl n a -> wfl n b -> (1 <= length a)%nat -> (1 <= length b)%nat ->
+  cnv_apply true n rsz off a b = cnv_apply false n rsz off a b.
+Proof. exact cnv_apply_family_independent. Qed.
+Print Assumptions C05_cnv_family_independent.
+
+(* the executable oracle's sum (skipping the pairs that cannot contribute) is the full sum *)
+Theorem C05_bivariate_fast_eq : forall n a b K, wfl n a -> wfl n b -> bivariate_coeff_fast n a b K = bivariate_coeff n a b K.
+Proof. exact bivariate_fast_eq. Qed.
+Print Assumptions C05_bivariate_fast_eq.
+
+(* cnv_pairwise_apply_dft(i, j) and the trick (a_i + a_j)(b_i + b_j) - a_i b_i - a_j b_j = a_i b_j + a_j b_i, limb by limb *)
+Theorem C05_cnv_pairwise_spec : forall fft n rsz off ai aj bi bj same k,
+  wfl n ai -> wfl n aj -> wfl n bi -> wfl n bj -> length aj = length ai -> length bj = length bi ->
+  (1 <= length ai)%nat -> (1 <= length bi)%nat -> (k < rsz)%nat ->
+  lim (cnv_pairwise fft n rsz off ai aj bi bj same) k =
+  if same then bivariate_coeff n ai bi (k + off)
+  else bivariate_coeff n (plimbs_add ai aj) (plimbs_add bi bj) (k + off).
+Proof. exact cnv_pairwise_spec. Qed.
+Print Assumptions C05_cnv_pairwise_spec.
+
+Theorem C05_pairwise_identity : forall fft n rsz off ai aj bi bj k,
+  wfl n ai -> wfl n aj -> wfl n bi -> wfl n bj -> length aj = length ai -> length bj = length bi ->
+  (1 <= length ai)%nat -> (1 <= length bi)%nat -> (k < rsz)%nat ->
+  psub (psub (lim (cnv_pairwise fft n rsz off ai aj bi bj false) k) (lim (cnv_apply fft n rsz off ai bi) k))
+       (lim (cnv_apply fft n rsz off aj bj) k)
+  = padd (lim (cnv_apply fft n rsz off ai bj) k) (lim (cnv_apply fft n rsz off aj bi) k).
+Proof. exact pairwise_identity_cnv. Qed.
+Print Assumptions C05_pairwise_identity.
+Example C05_pairwise_identity_ex :
+  let ai := [[1; 2]] in let aj := [[3; -1]] in let bi := [[2; 0]] in let bj := [[-1; 4]] in
+  psub (psub (lim (cnv_pairwise true 2 2 0 ai aj bi bj false) 0) (lim (cnv_apply true 2 2 0 ai bi) 0)) (lim (cnv_apply true 2 2 0 aj bj) 0)
+  = [-3; 0].
 Proof. reflexivity. Qed.
-Print Assumptions C05_placeholder.
+
+(* cnv_by_const_apply: limb k = sum_{u+v = k + off} b_v . a_u in the accumulator's width; a * (constant c) = c . a *)
+Theorem C05_cnv_by_const_spec : forall fft n dsz off a b k, wfl n a -> (1 <= length a)%nat -> (1 <= length b)%nat -> (k < dsz)%nat ->
+  lim (cnv_by_const fft n dsz off a b) k = map (wrap (if fft then 64 else 128)) (bivariate_coeff n a (map (pconst n) b) (k + off)).
+Proof. exact cnv_by_const_spec. Qed.
+Print Assumptions C05_cnv_by_const_spec.
+Theorem C05_pmul_pconst : forall x c, (1 <= length x)%nat -> pmul x (pconst (length x) c) = pscale c x.
+Proof. exact pmul_pconst. Qed.
+Print Assumptions C05_pmul_pconst.
+
+(* placement in a destination with several columns: the addressed form (NTT120, by_const) is the documented one;
+   the FFT64 flat form agrees with it for one column and is refuted for two (known finding fft64.cnv_apply_dft.res_col_ignored) *)
+Theorem C05_cnv_store_addressed_is_spec : forall n rcols rsz rcol ms f r0,
+  cnv_store false n rcols rsz rcol ms f r0 =
+  cnv_store_spec n rcols rsz rcol (fun j => if Nat.ltb j ms then f j else pzero n) r0.
+Proof. exact cnv_store_addressed_is_spec. Qed.
+Print Assumptions C05_cnv_store_addressed_is_spec.
+Theorem C05_cnv_store_flat_one_column : forall n rsz ms f r0, (ms <= rsz)%nat ->
+  cnv_store true n 1 rsz 0 ms f r0 = cnv_store_spec n 1 rsz 0 (fun j => if Nat.ltb j ms then f j else pzero n) r0.
+Proof. exact cnv_store_flat_one_column. Qed.
+Print Assumptions C05_cnv_store_flat_one_column.
+Theorem C05_cnv_store_flat_refuted : exists n rcols rsz rcol ms f r0,
+  cnv_store true n rcols rsz rcol ms f r0 <> cnv_store_spec n rcols rsz rcol (fun j => if Nat.ltb j ms then f j else pzero n) r0.
+Proof. exact cnv_store_flat_refuted. Qed.
+Print Assumptions C05_cnv_store_flat_refuted.
+
+(* the (cnv_offset_hi, cnv_offset_lo) split, as the Rust computes it, in both branches *)
+Theorem C05_cnv_offset_split_correct : forall b cnv, 1 <= b -> 0 <= cnv ->
+  let '(hi, lo) := offset_split b cnv in
+  hi * b + lo = cnv - b /\ 0 <= hi /\ - b <= lo < b /\
+  (cnv < b -> hi = 0 /\ lo = cnv - b) /\ (b <= cnv -> hi = cnv / b - 1 /\ lo = cnv mod b).
+Proof. exact offset_split_correct. Qed.
+Print Assumptions C05_cnv_offset_split_correct.
+Example C05_cnv_offset_split_ex : offset_split 17 5 = (0, -12) /\ offset_split 17 17 = (0, 0) /\ offset_split 17 40 = (1, 6).
+Proof. repeat split; reflexivity. Qed.
+
+(* ====================================================================================================== *)
+(* Part 2 — core level                                                                                     *)
+(* ====================================================================================================== *)
+
+(* torus position: the convolution output read at scale P + lo in radix 2^ab is the window hi <= u+v < hi+dsz of the exact
+   product of the two operand values, scaled by 2^(P + cnv_offset): the offset is a number of bits *)
+Theorem C05_product_position : forall fft n dsz hi P ab lo cnv a b, wfl n a -> wfl n b -> (1 <= length a)%nat -> (1 <= length b)%nat ->
+  zn hi * ab + lo = cnv - ab ->
+  pval n (P + lo) ab (cnv_apply fft n dsz hi a b) =
+  psumf n (fun u => psumf n (fun v =>
+     if Nat.leb hi (u + v) && Nat.ltb (u + v) (hi + dsz)
+     then pscale (2 ^ (P + cnv - (zn u + zn v + 2) * ab)) (pmul (lim a u) (lim b v)) else pzero n) (length b)) (length a).
+Proof. exact product_position. Qed.
+Print Assumptions C05_product_position.
+
+(* value of every tensor column (cell (i, j) holds c_i d_j + [i <> j] c_j d_i): Section hypotheses
+   nrm_shape, nrm_no_overflow, normalize_value_ok (C08) *)
+Theorem C05_tensor_cell_value :
+  forall (fft : bool) (n rsz dsz hi cols asz bsz : nat) (P rb ab lo : Z) (nrm : plimbs -> limbs)
+         (eps kap : plimbs -> list Z) (dom : plimbs -> Prop) (A B : list plimbs) (sigma : nat * nat -> list Z),
+  (forall D, shaped n rsz (nrm D)) ->
+  (forall D u c, Z.abs (nth c (lim (nrm D) u) 0) <= 2 ^ 61) ->
+  (forall D, wfl n D -> length D = dsz -> dom D ->
+     length (eps D) = n /\ length (kap D) = n /\
+     Vr n P rb (nrm D) = padd (padd (Vd n P ab lo D) (eps D)) (pscale (2 ^ P) (kap D)) /\
+     (forall c, Z.abs (nth c (eps D) 0) <= Uu rsz P rb)) ->
+  (forall i, (i < cols)%nat -> wfl n (colsel A i) /\ length (colsel A i) = asz) ->
+  (forall i, (i < cols)%nat -> wfl n (colsel B i) /\ length (colsel B i) = bsz) ->
+  (1 <= asz)%nat -> (1 <= bsz)%nat ->
+  (forall i, (i < cols)%nat -> dom (Cn fft n dsz hi A B i i)) ->
+  (forall i j, (i < cols)%nat -> (j < cols)%nat -> i <> j -> dom (Pw fft n dsz hi A B i j)) ->
+  (forall ij, length (sigma ij) = n) ->
+  forall (i j : nat) (r0 : list (list Z)), (i < cols)%nat -> (j < cols)%nat -> length r0 = rsz ->
+  Vr n P rb (cell_apply fft n nrm dsz hi A B i j r0) =
+  padd (padd (Gm fft n dsz hi P ab lo A B (i, j)) (Em fft n dsz hi eps A B (i, j))) (pscale (2 ^ P) (Km fft n dsz hi kap A B (i, j))).
+Proof. exact cell_value. Qed.
+Print Assumptions C05_tensor_cell_value.
+
+(* decrypting the model's tensor with keys sigma(i, j) (= s_i s_j, s_0 = 1, for the real tensor secret): the phase of the
+   tensor product of the two ciphertext vectors over exact products at scale P + lo (see C05_product_position for the
+   position), plus the normalisation error (C05_tensor_error_bound), plus a multiple of 2^P (i.e. equal on the torus) *)
+Theorem C05_tensor_phase :
+  forall (fft : bool) (n rsz dsz hi cols asz bsz : nat) (P rb ab lo : Z) (nrm : plimbs -> limbs)
+         (eps kap : plimbs -> list Z) (dom : plimbs -> Prop) (A B : list plimbs) (sigma : nat * nat -> list Z),
+  (forall D, shaped n rsz (nrm D)) ->
+  (forall D u c, Z.abs (nth c (lim (nrm D) u) 0) <= 2 ^ 61) ->
+  (forall D, wfl n D -> length D = dsz -> dom D ->
+     length (eps D) = n /\ length (kap D) = n /\
+     Vr n P rb (nrm D) = padd (padd (Vd n P ab lo D) (eps D)) (pscale (2 ^ P) (kap D)) /\
+     (forall c, Z.abs (nth c (eps D) 0) <= Uu rsz P rb)) ->
+  (forall i, (i < cols)%nat -> wfl n (colsel A i) /\ length (colsel A i) = asz) ->
+  (forall i, (i < cols)%nat -> wfl n (colsel B i) /\ length (colsel B i) = bsz) ->
+  (1 <= asz)%nat -> (1 <= bsz)%nat ->
+  (forall i, (i < cols)%nat -> dom (Cn fft n dsz hi A B i i)) ->
+  (forall i j, (i < cols)%nat -> (j < cols)%nat -> i <> j -> dom (Pw fft n dsz hi A B i j)) ->
+  (forall ij, length (sigma ij) = n) ->
+  forall res0 : list (list (list Z)), length res0 = length (tpairs cols) -> (forall r, In r res0 -> length r = rsz) ->
+  phase n P rb (tensor_gen (cell_apply fft n nrm dsz hi A B) cols res0) (map sigma (tpairs cols)) =
+  padd (padd (plsum n (map (fun ij => pmul (Gm fft n dsz hi P ab lo A B ij) (sigma ij)) (tpairs cols)))
+             (plsum n (map (fun ij => pmul (Em fft n dsz hi eps A B ij) (sigma ij)) (tpairs cols))))
+       (pscale (2 ^ P) (plsum n (map (fun ij => pmul (Km fft n dsz hi kap A B ij) (sigma ij)) (tpairs cols)))).
+Proof. exact tensor_phase. Qed.
+Print Assumptions C05_tensor_phase.
+
+Theorem C05_tensor_error_bound :
+  forall (fft : bool) (n rsz dsz hi cols asz bsz : nat) (P rb ab lo : Z) (nrm : plimbs -> limbs)
+         (eps kap : plimbs -> list Z) (dom : plimbs -> Prop) (A B : list plimbs) (sigma : nat * nat -> list Z),
+  (forall D u c, Z.abs (nth c (lim (nrm D) u) 0) <= 2 ^ 61) ->
+  (forall D, wfl n D -> length D = dsz -> dom D ->
+     length (eps D) = n /\ length (kap D) = n /\
+     Vr n P rb (nrm D) = padd (padd (Vd n P ab lo D) (eps D)) (pscale (2 ^ P) (kap D)) /\
+     (forall c, Z.abs (nth c (eps D) 0) <= Uu rsz P rb)) ->
+  (forall i, (i < cols)%nat -> wfl n (colsel A i) /\ length (colsel A i) = asz) ->
+  (forall i, (i < cols)%nat -> wfl n (colsel B i) /\ length (colsel B i) = bsz) ->
+  (1 <= asz)%nat -> (1 <= bsz)%nat ->
+  (forall i, (i < cols)%nat -> dom (Cn fft n dsz hi A B i i)) ->
+  (forall i j, (i < cols)%nat -> (j < cols)%nat -> i <> j -> dom (Pw fft n dsz hi A B i j)) ->
+  (forall ij, length (sigma ij) = n) ->
+  forall (ij : nat * nat) (c : nat), (fst ij < cols)%nat -> (snd ij < cols)%nat ->
+  Z.abs (nth c (Em fft n dsz hi eps A B ij) 0) <= (if Nat.eqb (fst ij) (snd ij) then 1 else 3) * Uu rsz P rb.
+Proof. exact Em_bound. Qed.
+Print Assumptions C05_tensor_error_bound.
+
+(* the hypotheses are satisfiable: the normaliser of already-normalised accumulators (equal radices, no shift), rank 1, n = 2 *)
+Example C05_tensor_phase_ex :
+  let nrm := reshape 2 2 in let zero := fun _ : plimbs => pzero 2 in
+  forall res0 : list (list (list Z)), length res0 = 3%nat -> (forall r, In r res0 -> length r = 2%nat) ->
+  phase 2 40 8 (tensor_gen (cell_apply true 2 nrm 2 0 exA exB) 2 res0) (map exsig (tpairs 2)) =
+  padd (padd (plsum 2 (map (fun ij => pmul (Gm true 2 2 0 40 8 0 exA exB ij) (exsig ij)) (tpairs 2)))
+             (plsum 2 (map (fun ij => pmul (Em true 2 2 0 zero exA exB ij) (exsig ij)) (tpairs 2))))
+       (pscale (2 ^ 40) (plsum 2 (map (fun ij => pmul (Km true 2 2 0 zero exA exB ij) (exsig ij)) (tpairs 2)))).
+Proof.
+  intros nrm zero res0 HL Hr.
+  apply (C05_tensor_phase true 2 2 2 0 2 1 1 40 8 8 0 nrm zero zero (small_dom 2 2) exA exB exsig).
+  - intros D. apply reshape_shape.
+  - intros D u c. apply reshape_no_overflow.
+  - intros D w L d. apply (reshape_value_ok 2 2 40 8 D w L d).
+  - intros [|[|i]] Hi; try lia; (split; [intros [|j] Hj; cbn in *; [reflexivity|lia]|reflexivity]).
+  - intros [|[|i]] Hi; try lia; (split; [intros [|j] Hj; cbn in *; [reflexivity|lia]|reflexivity]).
+  - lia.
+  - lia.
+  - intros [|[|i]] Hi; try lia; apply small_dom_concrete; vm_compute; split; reflexivity.
+  - intros [|[|i]] [|[|j]] Hi Hj Hij; try lia; apply small_dom_concrete; vm_compute; split; reflexivity.
+  - intros ij. reflexivity.
+  - exact HL.
+  - exact Hr.
+Qed.
+
+(* squaring gives bit for bit what multiplying the ciphertext by itself gives (for any shape-preserving per-column normaliser) *)
+Theorem C05_square_eq_self_mul : forall (fft : bool) (n rsz : nat) (nrm : plimbs -> limbs),
+  (forall D, shaped n rsz (nrm D)) ->
+  forall (dsz hi : nat) (A B : list plimbs) (cols : nat) (res0 : list (list (list Z))),
+  (forall r, In r res0 -> length r = rsz) ->
+  tensor_gen (cell_square fft n nrm dsz hi A B) cols res0 = tensor_gen (cell_apply fft n nrm dsz hi A B) cols res0.
+Proof. exact tensor_square_eq_apply. Qed.
+Print Assumptions C05_square_eq_self_mul.
+
+(* ... and for the model's entry points (equal radices: the concrete normaliser is total without any fuel argument) *)
+Theorem C05_square_eq_self_mul_model : forall fft n cnv rank b a_k a res0,
+  (forall r, In r res0 -> length r = length (colsel res0 0)) ->
+  glwe_tensor fft n 2 cnv rank b b a_k a_k a a res0 = glwe_tensor fft n 0 cnv rank b b a_k a_k a a res0.
+Proof. exact glwe_tensor_square_eq_self_mul. Qed.
+Print Assumptions C05_square_eq_self_mul_model.
+
+(* the accumulate variant adds exactly the product: limb-wise vec_znx_add_assign of what glwe_tensor_apply produces *)
+Theorem C05_tensor_add_assign_adds : forall (fft : bool) (n rsz : nat) (nrm : plimbs -> limbs),
+  (forall D, shaped n rsz (nrm D)) ->
+  forall (dsz hi : nat) (A B : list plimbs) (cols : nat) (res0 : list limbs),
+  (forall r, In r res0 -> shaped n rsz r) ->
+  tensor_gen (cell_add_assign fft n nrm dsz hi A B) cols res0 =
+  map2 (fun r t => vec_add_assign W t r) res0 (tensor_gen (cell_apply fft n nrm dsz hi A B) cols res0).
+Proof. exact tensor_add_assign_adds. Qed.
+Print Assumptions C05_tensor_add_assign_adds.
+
+Theorem C05_tensor_add_assign_adds_model : forall fft n cnv rank b a_k b_k a b' res0,
+  (forall r, In r res0 -> shaped n (length (colsel res0 0)) r) ->
+  glwe_tensor fft n 1 cnv rank b b a_k b_k a b' res0 =
+  match glwe_tensor fft n 0 cnv rank b b a_k b_k a b' res0 with
+  | Some t => Some (map2 (fun r x => vec_add_assign W x r) res0 t)
+  | None => None
+  end.
+Proof. exact glwe_tensor_add_assign_adds. Qed.
+Print Assumptions C05_tensor_add_assign_adds_model.
+Example C05_tensor_add_assign_ex :
+  let a := [[[1; -2]]; [[3; 1]]] in let b := [[[2; 1]]; [[-1; 1]]] in
+  let r0 := [[[5; 5]]; [[6; 6]]; [[7; 7]]] in
+  glwe_tensor true 2 0 8 1 8 8 8 8 a b r0 = Some [[[4; -3]]; [[6; 8]]; [[-4; 2]]] /\
+  glwe_tensor true 2 1 8 1 8 8 8 8 a b r0 = Some [[[9; 2]]; [[12; 14]]; [[3; 9]]] /\
+  glwe_tensor true 2 2 8 1 8 8 8 8 a a r0 = glwe_tensor true 2 0 8 1 8 8 8 8 a a r0.
+Proof. repeat split; reflexivity. Qed.
+
+(* glwe_mul_plain / glwe_mul_const: every result column is the normalised accumulator Cf(column);
+   phase under any key = sum_c val(Cf(col_c)) key_c over exact products + one unit per column + multiple of 2^P *)
+Theorem C05_column_phase :
+  forall (n rsz dsz : nat) (P rb ab lo : Z) (nrm : plimbs -> limbs) (eps kap : plimbs -> list Z) (dom : plimbs -> Prop)
+         (Cf : plimbs -> plimbs),
+  (forall D, shaped n rsz (nrm D)) ->
+  (forall D, wfl n D -> length D = dsz -> dom D ->
+     length (eps D) = n /\ length (kap D) = n /\
+     pval n P rb (nrm D) = padd (padd (pval n (P + lo) ab D) (eps D)) (pscale (2 ^ P) (kap D)) /\
+     (forall c, Z.abs (nth c (eps D) 0) <= 2 ^ (P - zn rsz * rb))) ->
+  forall (A : list plimbs) (key : list (list Z)),
+  (forall a, In a A -> wfl n (Cf a) /\ length (Cf a) = dsz /\ dom (Cf a)) -> (forall k, In k key -> length k = n) ->
+  phase n P rb (map (fun a => nrm (Cf a)) A) key =
+  padd (padd (plsum n (map (fun q => pmul (pval n (P + lo) ab (Cf (fst q))) (snd q)) (combine A key)))
+             (plsum n (map (fun q => pmul (eps (Cf (fst q))) (snd q)) (combine A key))))
+       (pscale (2 ^ P) (plsum n (map (fun q => pmul (kap (Cf (fst q))) (snd q)) (combine A key)))).
+Proof. exact column_phase. Qed.
+Print Assumptions C05_column_phase.
+
+Theorem C05_mul_plain_phase :
+  forall (fft : bool) (n rsz dsz hi : nat) (P rb ab lo : Z) (nrm : plimbs -> limbs) (eps kap : plimbs -> list Z) (dom : plimbs -> Prop)
+         (B : plimbs),
+  (forall D, shaped n rsz (nrm D)) ->
+  (forall D, wfl n D -> length D = dsz -> dom D ->
+     length (eps D) = n /\ length (kap D) = n /\
+     pval n P rb (nrm D) = padd (padd (pval n (P + lo) ab D) (eps D)) (pscale (2 ^ P) (kap D)) /\
+     (forall c, Z.abs (nth c (eps D) 0) <= 2 ^ (P - zn rsz * rb))) ->
+  wfl n B -> (1 <= length B)%nat ->
+  forall (A : list plimbs) (key : list (list Z)),
+  (forall a, In a A -> wfl n a /\ (1 <= length a)%nat /\ dom (cnv_apply fft n dsz hi a B)) -> (forall k, In k key -> length k = n) ->
+  let Cf := fun a => cnv_apply fft n dsz hi a B in
+  phase n P rb (map (fun a => nrm (Cf a)) A) key =
+  padd (padd (plsum n (map (fun q => pmul (pval n (P + lo) ab (Cf (fst q))) (snd q)) (combine A key)))
+             (plsum n (map (fun q => pmul (eps (Cf (fst q))) (snd q)) (combine A key))))
+       (pscale (2 ^ P) (plsum n (map (fun q => pmul (kap (Cf (fst q))) (snd q)) (combine A key)))).
+Proof.
+  intros fft n rsz dsz hi P rb ab lo nrm eps kap dom B Hs Hv wB LB A key HA Hk Cf.
+  apply (column_phase n rsz dsz P rb ab lo nrm eps kap dom Cf Hs Hv A key); [|exact Hk].
+  intros a Ha. destruct (HA a Ha) as (wa & La & da). subst Cf. cbv beta. repeat split.
+  - apply cnv_apply_wfl; assumption.
+  - apply cnv_apply_length.
+  - exact da.
+Qed.
+Print Assumptions C05_mul_plain_phase.
+
+Theorem C05_mul_const_phase :
+  forall (fft : bool) (n rsz dsz hi : nat) (P rb ab lo : Z) (nrm : plimbs -> limbs) (eps kap : plimbs -> list Z) (dom : plimbs -> Prop)
+         (b : list Z),
+  (forall D, shaped n rsz (nrm D)) ->
+  (forall D, wfl n D -> length D = dsz -> dom D ->
+     length (eps D) = n /\ length (kap D) = n /\
+     pval n P rb (nrm D) = padd (padd (pval n (P + lo) ab D) (eps D)) (pscale (2 ^ P) (kap D)) /\
+     (forall c, Z.abs (nth c (eps D) 0) <= 2 ^ (P - zn rsz * rb))) ->
+  (1 <= length b)%nat ->
+  forall (A : list plimbs) (key : list (list Z)),
+  (forall a, In a A -> wfl n a /\ (1 <= length a)%nat /\ dom (cnv_by_const fft n dsz hi a b)) -> (forall k, In k key -> length k = n) ->
+  let Cf := fun a => cnv_by_const fft n dsz hi a b in
+  phase n P rb (map (fun a => nrm (Cf a)) A) key =
+  padd (padd (plsum n (map (fun q => pmul (pval n (P + lo) ab (Cf (fst q))) (snd q)) (combine A key)))
+             (plsum n (map (fun q => pmul (eps (Cf (fst q))) (snd q)) (combine A key))))
+       (pscale (2 ^ P) (plsum n (map (fun q => pmul (kap (Cf (fst q))) (snd q)) (combine A key)))).
+Proof.
+  intros fft n rsz dsz hi P rb ab lo nrm eps kap dom b Hs Hv Lb A key HA Hk Cf.
+  apply (column_phase n rsz dsz P rb ab lo nrm eps kap dom Cf Hs Hv A key); [|exact Hk].
+  intros a Ha. destruct (HA a Ha) as (wa & La & da). subst Cf. cbv beta.
+  destruct (cnv_by_const_wfl fft n dsz hi a b wa La Lb) as [w L]. repeat split; assumption.
+Qed.
+Print Assumptions C05_mul_const_phase.
+
+(* the model's glwe_mul_plain is that column loop *)
+Theorem C05_mul_plain_columns : forall fft n cnv ab rb a_k b_k a b res0 cols,
+  glwe_mul_plain fft n cnv ab rb a_k b_k a b res0 = Some cols -> length res0 = length a ->
+  exists hi lo dsz, offset_split ab cnv = (hi, lo) /\ dsz = (length (colsel a 0) + length b - Z.to_nat hi)%nat /\
+  cols = map (fun x => big_nrm fft n (length (colsel res0 0)) rb ab lo
+                         (cnv_apply fft n dsz (Z.to_nat hi) x (cnv_prepare n (length b) (msb_mask ab b_k) b)))
+             (prep_cols n (length (colsel a 0)) (msb_mask ab a_k) a).
+Proof. exact glwe_mul_plain_columns. Qed.
+Print Assumptions C05_mul_plain_columns.
+
+(* the concrete per-column normaliser keeps the shape when the radices are equal *)
+Theorem C05_big_nrm_shape : forall fft n rsz b lo D, shaped n rsz (big_nrm fft n rsz b b lo D).
+Proof. exact big_nrm_shape_same_radix. Qed.
+Print Assumptions C05_big_nrm_shape.
+
+(* the triangular sum over the tensor's columns is the full double sum: with G_ii = g_ii, G_ij = g_ij + g_ji and sigma(i,j) = s_i s_j,
+   sum_{i <= j} G_ij s_i s_j = sum_{i, j} g_ij s_i s_j   (= (sum_i c_i s_i)(sum_j d_j s_j) when g_ij = c_i d_j) *)
+Theorem C05_tensor_resummation : forall (n cols : nat) (g : nat -> nat -> list Z) (s : nat -> list Z),
+  (forall i j, length (g i j) = n) -> (forall i, length (s i) = n) ->
+  plsum n (map (fun ij => pmul (if Nat.eqb (fst ij) (snd ij) then g (fst ij) (fst ij) else padd (g (fst ij) (snd ij)) (g (snd ij) (fst ij)))
+                               (pmul (s (fst ij)) (s (snd ij)))) (tpairs cols))
+  = psumf n (fun i => psumf n (fun j => pmul (g i j) (pmul (s i) (s j))) cols) cols.
+Proof. exact tensor_resummation. Qed.
+Print Assumptions C05_tensor_resummation.
+Example C05_tensor_resummation_ex :
+  let g := fun i j : nat => [Z.of_nat i + 1; Z.of_nat j] in let s := fun i : nat => [1; Z.of_nat i] in
+  psumf 2 (fun i => psumf 2 (fun j => pmul (g i j) (pmul (s i) (s j))) 2) 2 = [1; 8].
+Proof. reflexivity. Qed.
+
+(* |x * t|_inf <= |x|_inf |t|_1 and the resulting bound of an error phase: this is the E_norm term of the oracle's envelope *)
+Theorem C05_pmul_norm_bound : forall x t c Bd, length t = length x -> 0 <= Bd -> (forall i, Z.abs (nth i x 0) <= Bd) ->
+  Z.abs (nth c (pmul x t) 0) <= Bd * norm1 t.
+Proof. exact pmul_norm_bound. Qed.
+Print Assumptions C05_pmul_norm_bound.
+Theorem C05_error_phase_bound : forall (X : Type) (n : nat) (E sig : X -> list Z) (w : X -> Z) (l : list X) (c : nat),
+  (forall x, In x l -> length (E x) = n /\ length (sig x) = n /\ 0 <= w x /\ forall k, Z.abs (nth k (E x) 0) <= w x) ->
+  Z.abs (nth c (plsum n (map (fun x => pmul (E x) (sig x)) l)) 0) <= lsum (map (fun x => w x * norm1 (sig x)) l).
+Proof. exact @error_phase_bound. Qed.
+Print Assumptions C05_error_phase_bound.
+
+(* relinearisation, proved part: the phase of the tensor under (1, s, s (x) s) is the phase of its first rank+1 columns under (1, s)
+   plus the phase of the s_i s_j columns under s (x) s; relinearisation keeps the former and key-switches the latter *)
+Theorem C05_relinearize_phase_partial : forall n P b (T1 T2 : list plimbs) (k1 k2 : list (list Z)),
+  length T1 = length k1 -> (forall t, In t (T1 ++ T2) -> wfl n t) ->
+  phase n P b (T1 ++ T2) (k1 ++ k2) = padd (phase n P b T1 k1) (phase n P b T2 k2).
+Proof. exact phase_split. Qed.
+Print Assumptions C05_relinearize_phase_partial.
+
+(* ------------------------------------------------------------------------------------------------------ *)
+(* Not proved here (full statement kept as a definition): relinearisation itself is not modelled (gglwe_product_dft belongs to C03);
+   with `keyswitch_phase` (C03) as hypothesis the full statement is *)
+Definition C05_relinearize_phase_full : Prop :=
+  forall (n : nat) (P b : Z) (ks : list limbs -> list limbs) (relin : list limbs -> list limbs)
+         (T1 T2 : list limbs) (k1 k2 : list (list Z)) (Eks Kks : list Z),
+  length T1 = length k1 ->
+  (* keyswitch_phase (C03): the key-switch of the s_i s_j columns decrypts under s to their phase under s (x) s, up to E_ks *)
+  phase n P b (ks T2) k1 = padd (padd (phase n P b T2 k2) Eks) (pscale (2 ^ P) Kks) ->
+  (* relin = the model of glwe_tensor_relinearize (not written): T1 + ks(T2), normalised column by column *)
+  exists En Kn : list Z,
+  phase n P b (relin (T1 ++ T2)) k1 =
+  padd (padd (phase n P b (T1 ++ T2) (k1 ++ k2)) (padd Eks En)) (pscale (2 ^ P) (padd Kks Kn)).
